@@ -96,7 +96,7 @@ func TestC14Elections(t *testing.T) {
 			view.Close()
 			b := bg.Block
 			if _, err := sim.E.Propose(b, r, r); err != nil {
-				rec.Discard("proposal-failed")
+				rec.Discard("proposal-failed:" + chain.Why(err))
 				return
 			}
 			// capture what applications see right after BeginBlock
@@ -137,7 +137,7 @@ func TestC14Elections(t *testing.T) {
 			o0 := sim.E.ExecuteWithSide(r, b, chain.PathReplay, nil, side)
 			o1 := sim.E.Execute(sim.Reps[1], b, chain.PathProcess, nil)
 			if o0.Err != nil || o1.Err != nil || !o1.Accepted {
-				rec.Discard("block-failed")
+				rec.Discard("block-failed:" + chain.Why(o0.Err) + "/" + chain.Why(o1.Err))
 				return
 			}
 			if !bytes.Equal(o0.AppHash, o1.AppHash) {
@@ -145,7 +145,7 @@ func TestC14Elections(t *testing.T) {
 			}
 			fp = append(fp, b.Hash)
 			if err := sim.AfterCommit(b, o0); err != nil {
-				rec.Discard("engine-contract")
+				rec.Discard("engine-contract:" + chain.Why(err))
 				return
 			}
 			if capEpoch == lastEpoch {
